@@ -1399,7 +1399,18 @@ impl<'a> Lowerer<'a> {
         let args = self.lower_arg_list(node);
 
         // Check for qualified path first (e.g., mod::macrofn!())
-        if let Some(path_node) = self.find_child(node, |kind| kind == SyntaxKind::QualifiedPath)
+        // only a path BEFORE the `!` is the callee: the arguments are children of this node too
+        let callee_path_node = self.arena.children(node).and_then(|children| {
+            children
+                .iter()
+                .copied()
+                .take_while(|c| {
+                    !matches!(self.arena.get(*c), GreenNode::Token { token_index, .. }
+                        if self.tokens.get(*token_index).map(|t| t.kind) == Some(TokenKind::MacroExpand))
+                })
+                .find(|c| self.arena.kind(*c) == Some(SyntaxKind::QualifiedPath))
+        });
+        if let Some(path_node) = callee_path_node
             && let Some(path) = self.lower_qualified_path(path_node)
         {
             let path_span = self.node_span(path_node).unwrap_or(0..0);
